@@ -5,6 +5,7 @@ package checks
 import (
 	"bytes"
 	"fmt"
+	"sort"
 	"sync"
 	"testing"
 
@@ -570,6 +571,189 @@ func TestC13Huge(t *testing.T) {
 			if lr.Status != nt.NFS3_OK || !bytes.Equal(lr.Resok.Object.Data, w.fh) {
 				fail("LOOKUP %s: status %d handle %x, created as %x", name, lr.Status, lr.Resok.Object.Data, w.fh)
 			}
+		}
+	})
+}
+
+// Directories whose inode number belonged to another directory (or a file) a moment ago, within one server uptime:
+// on an inode table that is full but for a handful of numbers every MKDIR is handed a number that was freed a few
+// requests earlier, while the old object's in-memory inode is still cached.  Each round makes a directory, fills
+// it, enumerates it with READDIR and READDIRPLUS (paged) against a map and cross-checks with LOOKUP, empties and
+// removes it; some rounds put a file with data on the freed number (and the freed directory block) in between.
+func TestC13Reuse(t *testing.T) {
+	inodeFullOnce.Do(buildInodeFullImage)
+	rapid.Check(t, func(t *rapid.T) {
+		d := NewDiskFrom(inodeFullDisk, inodeFullImg)
+		d.SetRecord(false)
+		s := StartSrv(d, rapid.Bool().Draw(t, "unstable"), false)
+		defer func() { s.Stop() }()
+		var hist []string
+		logf := func(format string, a ...any) { hist = append(hist, fmt.Sprintf(format, a...)) }
+		fail := func(format string, a ...any) {
+			failf(t, "C13", map[string]any{"history": hist}, format, a...)
+		}
+		api := s.API()
+		root := s.RootFH()
+		k := rapid.IntRange(3, 6).Draw(t, "free_inode_numbers")
+		p0 := api.NFSPROC3_LOOKUP(nt.LOOKUP3args{What: nt.Diropargs3{Dir: root, Name: nt.Filename3(inodeFullDirs[0])}})
+		if p0.Status != nt.NFS3_OK {
+			St.Class("setup_not_possible_with_this_build_case_not_judged")
+			return
+		}
+		for i := 0; i < k; i++ {
+			if r := api.NFSPROC3_REMOVE(nt.REMOVE3args{Object: nt.Diropargs3{Dir: p0.Resok.Object, Name: nt.Filename3(fmt.Sprintf("p%d", 5+7*i))}}); r.Status != nt.NFS3_OK {
+				St.Class("setup_not_possible_with_this_build_case_not_judged")
+				return
+			}
+		}
+		logf("inode table full but for %d numbers", k)
+		wasDir, wasFile := map[uint64]bool{}, map[uint64]bool{}
+		ndirdir, nfiledir := 0, 0
+		rounds := rapid.IntRange(4, 10).Draw(t, "rounds")
+		for r := 0; r < rounds; r++ {
+			dn := fmt.Sprintf("d%d", r)
+			mk := api.NFSPROC3_MKDIR(nt.MKDIR3args{Where: nt.Diropargs3{Dir: root, Name: nt.Filename3(dn)}})
+			if mk.Status != nt.NFS3_OK {
+				fail("MKDIR /%s with %d free inode numbers: status %d", dn, k, mk.Status)
+			}
+			dh := mk.Resok.Obj.Handle
+			did := uint64(mk.Resok.Obj_attributes.Attributes.Fileid)
+			reusedDir, reusedFile := wasDir[did], wasFile[did]
+			if reusedDir {
+				ndirdir++
+			}
+			if reusedFile {
+				nfiledir++
+			}
+			logf("MKDIR /%s -> inode %d (was a directory before: %v, a file: %v)", dn, did, reusedDir, reusedFile)
+			type ent struct {
+				id uint64
+				fh []byte
+			}
+			have := map[string]ent{}
+			m := rapid.IntRange(0, k-1).Draw(t, "entries")
+			for i := 0; i < m; i++ {
+				name := genEntryName(t, i)
+				var id uint64
+				var h []byte
+				var st nt.Nfsstat3
+				if rapid.IntRange(0, 3).Draw(t, "subdir") == 0 {
+					c := api.NFSPROC3_MKDIR(nt.MKDIR3args{Where: nt.Diropargs3{Dir: dh, Name: nt.Filename3(name)}})
+					st, id, h = c.Status, uint64(c.Resok.Obj_attributes.Attributes.Fileid), c.Resok.Obj.Handle.Data
+				} else {
+					c := api.NFSPROC3_CREATE(nt.CREATE3args{Where: nt.Diropargs3{Dir: dh, Name: nt.Filename3(name)}})
+					st, id, h = c.Status, uint64(c.Resok.Obj_attributes.Attributes.Fileid), c.Resok.Obj.Handle.Data
+				}
+				if st != nt.NFS3_OK {
+					fail("CREATE/MKDIR /%s/%s: status %d", dn, trunc(name, 24), st)
+				}
+				have[name] = ent{id, h}
+			}
+			logf("%d entries made in /%s", m, dn)
+			for _, plus := range []bool{false, true} {
+				req := pageReq{Plus: plus, Count: pick(t, []uint32{100, 300, 512, 4096, 65536}, "count"), Dircount: 65536}
+				seen := map[string]int{}
+				for pages := 0; ; pages++ {
+					if pages > 200 {
+						fail("enumeration of /%s does not end", dn)
+					}
+					ents, eof, st := onePage(api, dh, req)
+					if st != nt.NFS3_OK || (len(ents) == 0 && !eof) {
+						fail("READDIR%s of /%s (inode %d) from cookie %d: status %d, %d entries, eof %v", map[bool]string{true: "PLUS"}[plus], dn, did, req.Cookie, st, len(ents), eof)
+					}
+					for _, e := range ents {
+						seen[e.Name]++
+						if e.Name == "." || e.Name == ".." {
+							if e.Name == "." && e.Fileid != did {
+								fail("'.' of /%s carries file id %d, the directory's is %d", dn, e.Fileid, did)
+							}
+							continue
+						}
+						w, ok := have[e.Name]
+						if !ok {
+							fail("the listing of /%s (inode %d, number reused from a directory: %v, from a file: %v) returned %q, which is not in the directory", dn, did, reusedDir, reusedFile, trunc(e.Name, 30))
+						}
+						if e.Fileid != w.id {
+							fail("entry %q of /%s carries file id %d, the object's is %d", trunc(e.Name, 30), dn, e.Fileid, w.id)
+						}
+						if plus && (e.FH == nil || !bytes.Equal(e.FH, w.fh) || e.Attr == nil || uint64(e.Attr.Fileid) != w.id) {
+							fail("READDIRPLUS entry %q of /%s carries handle %x (object: %x) or wrong attributes", trunc(e.Name, 30), dn, e.FH, w.fh)
+						}
+					}
+					if eof {
+						break
+					}
+					req.Cookie = ents[len(ents)-1].Cookie
+				}
+				for name := range have {
+					if seen[name] != 1 {
+						fail("entry %q of /%s (inode %d; number reused from a directory: %v, from a file: %v; %d entries) was returned %d times by READDIR%s (count %d)",
+							trunc(name, 30), dn, did, reusedDir, reusedFile, len(have), seen[name], map[bool]string{true: "PLUS"}[plus], req.Count)
+					}
+				}
+				if seen["."] != 1 || seen[".."] != 1 {
+					fail("/%s (inode %d; number reused from a directory: %v, from a file: %v): '.' returned %d times, '..' %d times by READDIR%s", dn, did, reusedDir, reusedFile, seen["."], seen[".."], map[bool]string{true: "PLUS"}[plus])
+				}
+				St.Eval(1)
+				if reusedDir || reusedFile {
+					St.NT(Hash("c13reuse", hist, plus))
+				}
+			}
+			for name, w := range have {
+				l := api.NFSPROC3_LOOKUP(nt.LOOKUP3args{What: nt.Diropargs3{Dir: dh, Name: nt.Filename3(name)}})
+				if l.Status != nt.NFS3_OK || !bytes.Equal(l.Resok.Object.Data, w.fh) {
+					fail("LOOKUP /%s/%s: status %d", dn, trunc(name, 30), l.Status)
+				}
+			}
+			if rapid.IntRange(0, 3).Draw(t, "keep_until_later") == 0 && r+1 < rounds && k-m >= 3 {
+				// this directory stays (empty or not): the following rounds work with fewer numbers
+				logf("/%s stays", dn)
+				k -= m + 1
+				continue
+			}
+			names := make([]string, 0, len(have))
+			for name := range have {
+				names = append(names, name)
+			}
+			sort.Strings(names)
+			for _, name := range names {
+				st := api.NFSPROC3_REMOVE(nt.REMOVE3args{Object: nt.Diropargs3{Dir: dh, Name: nt.Filename3(name)}}).Status
+				if st != nt.NFS3_OK {
+					fail("REMOVE /%s/%s: status %d", dn, trunc(name, 30), st)
+				}
+				wasFile[have[name].id] = true
+			}
+			if st := api.NFSPROC3_RMDIR(nt.RMDIR3args{Object: nt.Diropargs3{Dir: root, Name: nt.Filename3(dn)}}).Status; st != nt.NFS3_OK {
+				fail("RMDIR /%s after removing its %d entries: status %d", dn, len(have), st)
+			}
+			wasDir[did] = true
+			logf("entries removed, RMDIR /%s", dn)
+			if rapid.IntRange(0, 2).Draw(t, "file_between") == 0 {
+				// a file with data takes a freed number and freed blocks, and goes away again
+				c := api.NFSPROC3_CREATE(nt.CREATE3args{Where: nt.Diropargs3{Dir: root, Name: "between"}})
+				if c.Status == nt.NFS3_OK {
+					data := bytes.Repeat([]byte{0, 0, 0, 0, 0, 0, 0, 7, 0, 0, 0, 0, 0, 0, 0, 3, 'z', 'z', 'z', 0, 0, 0, 0, 0}, 3*BlockSize/24)
+					api.NFSPROC3_WRITE(nt.WRITE3args{File: c.Resok.Obj.Handle, Offset: 0, Count: nt.Count3(len(data)), Stable: nt.FILE_SYNC, Data: data})
+					if rapid.Bool().Draw(t, "file_stays_a_round") {
+						// removed only after the next MKDIR would have been... keep it simple: remove now or keep for good
+						k--
+						api.NFSPROC3_RENAME(nt.RENAME3args{From: nt.Diropargs3{Dir: root, Name: "between"}, To: nt.Diropargs3{Dir: root, Name: nt.Filename3(fmt.Sprintf("kept%d", r))}})
+						logf("a file with three blocks of entry-like data made and kept (inode %d)", c.Resok.Obj_attributes.Attributes.Fileid)
+					} else {
+						api.NFSPROC3_REMOVE(nt.REMOVE3args{Object: nt.Diropargs3{Dir: root, Name: "between"}})
+						wasFile[uint64(c.Resok.Obj_attributes.Attributes.Fileid)] = true
+						logf("a file with three blocks of entry-like data made and removed (inode %d)", c.Resok.Obj_attributes.Attributes.Fileid)
+					}
+				}
+			}
+			if k < 3 {
+				break
+			}
+		}
+		St.ClassN("directories_on_the_number_of_a_directory_removed_in_this_uptime", ndirdir)
+		St.ClassN("directories_on_the_number_of_a_file_removed_in_this_uptime", nfiledir)
+		if St.WantSample(ndirdir > 0) {
+			St.Sample(map[string]any{"kind": "directories on recycled inode numbers within one server uptime", "history": hist}, ndirdir > 0)
 		}
 	})
 }
